@@ -14,7 +14,7 @@ INFO = {
                    "repository's test does (iter; !done; inspect; advance) and must yield the abstraction in order / "
                    "reversed in exactly size steps. reach: for ANY RI state (fields and all slot contents) a constructed "
                    "history of real operations starting at init() produces exactly that state, so RI admits no "
-                   "unreachable state and init() establishes RI. hist: black box - init() then NOPS arbitrary operations "
+                   "unreachable state and init() establishes RI. hist: black box, one instance per capacity 1..CAP - init() then NOPS arbitrary operations "
                    "compared with the queue model through return values and iterators only (independent of RI and of the "
                    "abstraction function). step+reach together cover operation histories of any length for the stated "
                    "capacities.",
